@@ -103,7 +103,8 @@ inductive Resp where
   | ok                                     -- success without a value
   | status (code : Nat)                    -- a non-success status (its text body is discarded)
   | silent                                 -- quiet command that produces no response
-  | io                                     -- the connection failed
+  | io                                     -- the connection failed while the reply was awaited
+  | wfail                                  -- the connection was already broken: the request could not be written
   deriving Repr, DecidableEq, Inhabited
 
 def stNotFound : Nat := Gen.binprot_StatusKeyEnoent
